@@ -864,6 +864,219 @@ def run_ec(ctx, mods, batch):
                   else f'ecc_public secp256r1 {coq_z(c[1])}') for c in large], fin_large, slow=True)
 
 
+# ----------------------------------------------------------------------------- stateful use
+def enc_coord(v, width):
+    return v.to_bytes(max(width, (v.bit_length() + 7) // 8), 'big')
+
+
+def history_oracle(mods, d, calls, touch_xy=False):
+    """One key object per back end, used for the whole sequence of dh() calls.  After every call:
+    an off-curve pair is rejected by both; both back ends agree; the result is what a fresh key
+    object with the same private scalar returns for that pair alone.  `calls` holds
+    (x, y, width) with width the byte length of the encodings.  Returns (None, outcomes) or
+    ((index, description), outcomes); outcomes are those of the built-in object."""
+    keys = {name: mod.EccKey.from_private_key_bytes(d.to_bytes(32, 'big')) for name, mod in mods.items()}
+    outs = []
+    bad = None
+    for i, (x, y, w) in enumerate(calls):
+        xb, yb = enc_coord(x, w), enc_coord(y, w)
+        res = {}
+        for name, mod in mods.items():
+            if touch_xy and i % 3 == 1:
+                _ = (keys[name].x, keys[name].y)
+            res[name] = canon(outcome(keys[name].dh, xb, yb))
+        outs.append(res['builtin'])
+        if bad is not None:
+            continue
+        if not is_on_curve(x, y):
+            for name in mods:
+                if res[name] != ['raise']:
+                    bad = (i, f'call {i} on one {name} EccKey object: dh accepts ({hex(x)}, {hex(y)}), which is not a point of P-256, '
+                              f'and returns {_show(res[name])}')
+                    break
+        if bad is None and res['builtin'] != res['cryptography']:
+            bad = (i, f'call {i} on one EccKey object per back end: builtin {_show(res["builtin"])} != cryptography {_show(res["cryptography"])} for ({hex(x)}, {hex(y)})')
+        if bad is None:
+            for name, mod in mods.items():
+                fresh = canon(outcome(mod.EccKey.from_private_key_bytes(d.to_bytes(32, 'big')).dh, xb, yb))
+                if fresh != res[name]:
+                    bad = (i, f'call {i}: {name} EccKey.dh returns {_show(res[name])} on a used key object but {_show(fresh)} on a fresh one for ({hex(x)}, {hex(y)})')
+                    break
+    return bad, outs
+
+
+def gen_history(rng, length):
+    """a sequence of peer keys around a few valid points: the point, its opposite, the same X with
+    an off-curve Y (y+1, lsb / msb flipped, y = 0, random), the same Y with another X, repeats,
+    the same values in a longer encoding"""
+    pts = [point_with_x_near(rng.below(P)) for _ in range(rng.range(1, 3))]
+    pts.append((GX, GY))
+    calls = []
+    first = rng.choice(pts)
+    start_valid = rng.chance(2, 3)
+    for i in range(length):
+        x, y = first if i < 2 else rng.choice(pts)
+        r = rng.below(12) if (i > 0 or not start_valid) else 0
+        w = 32
+        if r <= 1:
+            pass                                   # the valid point (again)
+        elif r == 2:
+            y = P - y                              # the opposite point: valid, same X
+        elif r == 3:
+            y = (y + 1) % P
+        elif r == 4:
+            y ^= 1
+        elif r == 5:
+            y ^= 1 << 255
+        elif r == 6:
+            y = 0
+        elif r == 7:
+            y = rng.below(P)
+        elif r == 8:
+            x = (x + 1) % P                        # same Y, another X
+        elif r == 9:
+            x ^= 1 << rng.below(256)
+        elif r == 10:
+            w = 33                                 # same point, encodings with a leading zero byte
+        else:
+            x, y = y, x
+        calls.append((x, y, w))
+    return calls
+
+
+def history_replay(d, calls, touch_xy):
+    return {'kind': 'dh-history', 'd': hex(d), 'touch_xy': touch_xy, 'calls': [[hex(x), hex(y), w] for x, y, w in calls]}
+
+
+def run_ec_histories(ctx, mods, batch):
+    rng = ctx.rng
+    hist = []
+    # the shape of the seeded change C14-a, both orders, on the Core sample key
+    da = int(P256_SETS[0][0], 16)
+    bx, by = int(P256_SETS[0][3][0], 16), int(P256_SETS[0][3][1], 16)
+    hist.append((da, [(bx, by, 32), (bx, by ^ 1, 32), (bx, (by + 1) % P, 32), (bx, 0, 32), (bx, by ^ (1 << 255), 32), (bx, P - by, 32), (bx, by, 32)], False))
+    hist.append((da, [(bx, by ^ 1, 32), (bx, by, 32), (bx, by ^ 1, 32), (bx ^ 1, by, 32), (bx, by, 33), (bx, by, 32)], True))
+    for _ in range(ctx.n(24, 300)):
+        d = rng.choice([1, 2, rng.range(1, N - 1), rng.range(1, N - 1), rng.range(1, N - 1)])
+        hist.append((d, gen_history(rng, rng.range(3, 9)), rng.chance(1, 3)))
+    small = []
+    for k in range(ctx.n(5, 40)):        # small private keys: also evaluated by the Coq model
+        d = rng.range(1, 15)
+        calls = gen_history(rng, rng.range(3, 6))
+        hist.append((d, calls, False))
+        small.append(len(hist) - 1)
+    outs_of = {}
+    for h, (d, calls, touch) in enumerate(hist):
+        bad, outs = history_oracle(mods, d, calls, touch)
+        outs_of[h] = outs
+        n_off = sum(1 for x, y, _ in calls if not is_on_curve(x, y))
+        ctx.case(('dh-history', d, tuple(calls), touch), 0 < n_off < len(calls), history_replay(d, calls, touch) if h == 2 else None)
+        ctx.count('ec.history.sequences')
+        ctx.count('ec.history.calls', len(calls))
+        ctx.count('ec.history.calls_off_curve', n_off)
+        if bad:
+            ctx.violation('dh-history:' + ('off-curve-accepted' if 'accepts' in bad[1] else 'depends-on-earlier-calls'),
+                          bad[1], history_replay(d, calls[:bad[0] + 1], touch))
+
+    def fin(model):
+        for h, mv in zip(small, model):
+            d, calls, _ = hist[h]
+            ctx.count('ec.history.model')
+            mo = [model_dh(v) for v in mv]
+            if mo != outs_of[h]:
+                ctx.disagree('builtin EccKey.dh on one key object (sequence of calls)', history_replay(d, calls, False), mo, outs_of[h])
+    exprs = []
+    for h in small:
+        d, calls, _ = hist[h]
+        pairs = '[' + '; '.join(f'({coq_bytes(enc_coord(x, w))}, {coq_bytes(enc_coord(y, w))})' for x, y, w in calls) + ']'
+        exprs.append(f'ecc_dh_history secp256r1 {coq_z(d)} {pairs}')
+    batch.defer(exprs, fin)
+
+
+def run_stateful_primitives(ctx, mods, batch):
+    """Sequences of calls with related inputs in one process (a cache keyed by part of the input
+    would show), and _CMAC objects reused across update()/digest() calls."""
+    rng = ctx.rng
+    bi, lib = mods['builtin'], mods['cryptography']
+    # e / aes_cmac: same key then keys differing in one byte, data sharing prefixes / suffixes
+    for _ in range(ctx.n(6, 60)):
+        k0, d0 = rng.bytes(16), rng.bytes(16)
+        seq = [(k0, d0)]
+        for _ in range(8):
+            k, dt = seq[-1] if rng.chance(1, 2) else (k0, d0)
+            r = rng.below(6)
+            pos = rng.choice([0, 15, rng.below(16)])
+            if r <= 1:
+                k = k[:pos] + bytes([k[pos] ^ (1 << rng.below(8))]) + k[pos + 1:]
+            elif r <= 3:
+                dt = dt[:pos] + bytes([dt[pos] ^ (1 << rng.below(8))]) + dt[pos + 1:]
+            elif r == 4:
+                k, dt = dt, k
+            seq.append((k, dt))
+        seq += seq[:3]
+        for k, dt in seq:
+            rb, rc = outcome(bi.e, k, dt), outcome(lib.e, k, dt)
+            ctx.case(('e-seq', k, dt), True, None)
+            ctx.count('stateful.e_related_calls')
+            if canon(rb) != canon(rc) or rb[0] != 'ok':
+                ctx.violation('e:backends-differ', f'e(key={hx(k)}, data={hx(dt)}) in a sequence of related calls: builtin {_show(rb)} != cryptography {_show(rc)}',
+                              {'kind': 'e', 'key': hx(k), 'data': hx(dt)})
+        msg = rng.bytes(rng.choice([15, 16, 17, 32, 40]))
+        for j in range(10):
+            k = k0 if j % 2 == 0 else k0[:15] + bytes([k0[15] ^ j])
+            m = msg[:rng.choice([0, 1, 15, 16, len(msg)])] + (b'' if j % 3 else bytes([j]))
+            rb, rc = outcome(bi.aes_cmac, m, k), outcome(lib.aes_cmac, m, k)
+            ctx.case(('cmac-seq', k, m), True, None)
+            ctx.count('stateful.cmac_related_calls')
+            if canon(rb) != canon(rc) or rb[0] != 'ok':
+                ctx.violation(f'cmac:backends-differ:len%16={len(m) % 16}', f'aes_cmac(len {len(m)}, key {hx(k)}) in a sequence of related calls: builtin {_show(rb)} != cryptography {_show(rc)}',
+                              {'kind': 'cmac', 'key': hx(k), 'msg': hx(m)})
+    # one _CMAC object: digest() after every update() (update_after_digest=True), digest() twice
+    reuse = []
+    for _ in range(ctx.n(10, 100)):
+        k = rng.bytes(16)
+        chunks = split_chunks(rng, rng.bytes(rng.choice([16, 17, 31, 32, 33, 48, rng.range(0, 90)])))
+        reuse.append((k, chunks))
+    for k, chunks in reuse:
+        c = bi._CMAC(key=k, msg=b'', update_after_digest=True)
+        sofar = b''
+        tags = [canon(outcome(c.digest))]
+        for ci, ch in enumerate(chunks):
+            c.update(ch)
+            sofar += ch
+            t1, t2 = canon(outcome(c.digest)), canon(outcome(c.digest))
+            want = canon(outcome(lib.aes_cmac, sofar, k))
+            ctx.case(('cmac-reuse', k, sofar), True, None)
+            ctx.count('stateful.cmac_object_digests')
+            tags.append(t1)
+            if t1 != want or t2 != want:
+                ctx.violation('cmac:object-reuse', f'_CMAC object after {len(sofar)} bytes in updates: digest {_show(t1)} / again {_show(t2)} != cryptography {_show(want)}',
+                              {'kind': 'cmac-chunked', 'key': hx(k), 'chunks': [hx(x) for x in chunks[:ci + 1]]})
+                break
+        c2 = bi._CMAC(key=k, msg=sofar)
+        if canon(outcome(c2.digest)) != canon(outcome(c2.digest)):
+            ctx.violation('cmac:digest-twice', 'a second digest() on one _CMAC object returns another tag', {'kind': 'cmac', 'key': hx(k), 'msg': hx(sofar)})
+    # the model: the tag after each prefix of the updates
+    sub = reuse[:ctx.n(4, 30)]
+    exprs, wants = [], []
+    for k, chunks in sub:
+        for j in range(len(chunks) + 1):
+            exprs.append(f'aes_cmac_chunked_builtin {coq_list(chunks[:j], coq_bytes)} {coq_bytes(k)}')
+            wants.append((k, chunks[:j]))
+
+    def fin(model):
+        for (k, chunks), mv in zip(wants, model):
+            c = bi._CMAC(key=k, msg=b'', update_after_digest=True)
+            for ch in chunks:
+                c.update(ch)
+                c.digest()
+            rb = canon(outcome(c.digest))
+            ctx.count('stateful.cmac_object_model')
+            if model_opt(mv) != rb:
+                ctx.disagree('builtin._CMAC digest() after every update()', {'key': hx(k), 'chunks': [hx(x) for x in chunks]}, model_opt(mv), rb)
+    batch.defer(exprs, fin)
+
+
 # ----------------------------------------------------------------------------- RPA
 def run_rpa(ctx, mods, batch):
     from bumble import helpers
@@ -993,6 +1206,10 @@ def oracle_one(mods, r):
         if 'expect' in r and res['builtin'] != ['ok', list(bytes.fromhex(r['expect']))]:
             return f'ECDH: {_show(res["builtin"])} is not the expected {r["expect"]}'
         return None
+    if kind == 'dh-history':
+        calls = [(int(x, 16), int(y, 16), w) for x, y, w in r['calls']]
+        bad, _ = history_oracle(mods, int(r['d'], 16), calls, r.get('touch_xy', False))
+        return bad[1] if bad else None
     if kind == 'dh-pair':
         a, b = int(r['a'], 16), int(r['b'], 16)
         out = []
@@ -1063,7 +1280,10 @@ def run(ctx):
         'off-curve Jacobian points incl. infinity, y=0, equal and inverse points in different representations; scalar '
         'multiples 0..12 and random 12-bit; public keys and ECDH for scalars 1,2,..,n-1,n-2, powers of two, random; '
         'off-curve peers: (0,0), (1,1), y=0, x>=p, y>=p, bit flips of valid points, twist points, points of other-b curves; '
-        'RPA: real Address.generate_private_address / AddressResolver.resolve / verify_rpa_with_irk with a deterministic '
+        'histories: sequences of 3-9 dh() calls on ONE EccKey object per back end (valid point, its opposite, same X with Y+1 / '
+        'bit-flipped Y / Y=0 / random Y, same Y with another X, repeats, longer encodings, .x/.y reads in between), oracle after '
+        'every call incl. equality with a fresh key object; related-input call sequences for e / aes_cmac; one _CMAC object with '
+        'digest() after every update(). RPA: real Address.generate_private_address / AddressResolver.resolve / verify_rpa_with_irk with a deterministic '
         'token source, key at position 0-2 of the resolver list. A case is non-trivial when the message is non-empty / the '
         'scalar exceeds 1 / both points are finite; distinct by content.')
     ctx.assumptions += [
@@ -1089,6 +1309,8 @@ def run(ctx):
     run_rpa(ctx, mods, batch)
     run_ec_steps(ctx, mods, batch)
     run_ec(ctx, mods, batch)
+    run_ec_histories(ctx, mods, batch)
+    run_stateful_primitives(ctx, mods, batch)
     ctx.log('implementation side done; evaluating the Coq models')
     batch.evaluate(ctx)
     ctx.log('model comparison done')
@@ -1134,6 +1356,14 @@ def search(ctx):
         bad = oracle_one(mods, r)
         if bad:
             ctx.violation('dh:off-curve-accepted:' + ('builtin' if bad.startswith('builtin') else 'cryptography'), bad, r)
+            return
+    for _ in range(400):
+        d = rng.range(1, N - 1)
+        calls = gen_history(rng, rng.range(3, 10))
+        bad, _ = history_oracle(mods, d, calls, rng.chance(1, 3))
+        if bad:
+            ctx.violation('dh-history:' + ('off-curve-accepted' if 'accepts' in bad[1] else 'depends-on-earlier-calls'), bad[1],
+                          history_replay(d, calls[:bad[0] + 1], False))
             return
     for _ in range(2000):
         r = {'kind': 'rpa', 'irk': hx(rng.bytes(16)), 'tokens': hx(rng.bytes(6))}
